@@ -33,6 +33,10 @@ def obligations(tier, ctx):
     for pat, cut in (((0, 0), (5, 2), (6, 0), (7, 1), (8, 3)) if tier == "quick" else ((0, 0), (0, 1), (0, 2), (0, 3), (0, 4), (5, 0), (5, 2), (4, 2), (1, 1), (6, 0), (7, 0), (8, 0), (6, 2), (7, 1), (8, 3))):
         obs.append(Ob(name=f"chunk_long_p{pat}_c{cut}", params=[("k", "int")], pre=[f"0 <= k < {nsz}"], call=f"H.chunking_long(k, {pat}, {cut}, {lim})", backend="P", timeout=900,
                       family="(a) size: an event line of c-1, c, c+1 characters (c: integer constants of the source and environment sizes), five ways of cutting it"))
+    from harness_sizes_n import N_TEXTS
+    for cut, crlf in (((3, False), (2, True)) if tier == "quick" else ((0, False), (1, False), (2, False), (3, False), (2, True), (3, True))):
+        obs.append(Ob(name=f"chunk_text_c{cut}{'_crlf' if crlf else ''}", params=[("i", "int")], pre=[f"0 <= i < {N_TEXTS}"], call=f"H.chunking_text(i, {cut}, {crlf})", backend="P", timeout=600,
+                      family="(a) content corpus: event payload carrying 'active' text raw (separators that str.splitlines honours, BOM, templates, JSON-looking text)"))
     for via in (False, True):
         tag = "client" if via else "transport"
         obs.append(Ob(name=f"establish_refused_{tag}", params=[("n", "bool")], pre=[], call=f"H.establish(0, 200, 0, n, {via})", backend="P", timeout=120, family="(b) live-or-raise"))
